@@ -99,7 +99,8 @@ def render_config(cfg, syntax, style=None):
         if style.get("comment"):
             lines.append("# " + style["comment"])
         lines.append("")
-        lines.append("[%s]" % fsec)
+        if cfg.get("file_patterns") or not style.get("omit_empty_table"):
+            lines.append("[%s]" % fsec)
         for key, pats in cfg.get("file_patterns", []):
             if len(pats) == 1 and style.get("toml_inline", True):
                 lines.append("%s = [%s]" % (toml_key(key), toml_str(pats[0], style.get("toml_literal"))))
@@ -125,7 +126,8 @@ def render_config(cfg, syntax, style=None):
         if style.get("comment"):
             lines.append("# " + style["comment"])
         lines.append("")
-        lines.append("[%s]" % fsec)
+        if cfg.get("file_patterns") or not style.get("omit_empty_table"):
+            lines.append("[%s]" % fsec)
         for key, pats in cfg.get("file_patterns", []):
             lines.append("%s =" % key)
             for p in pats:
